@@ -31,6 +31,23 @@ impl SchedulerCore {
     /// Wakes a thread to run a dormant queue. Returns true if a thread was woken up
     ///
     pub (super) fn schedule_thread(&self, core: Arc<SchedulerCore>) -> bool {
+        // Threads that have finished since the last time we were called (which generally means that one of their jobs panicked) can
+        // no longer pick up the queues that were waiting for a thread to become free. Each of them is owed a replacement that
+        // looks at the schedule, or a queue stays stranded for every thread that was lost beyond the first
+        let lost_threads    = self.remove_finished_threads();
+        let scheduled       = self.schedule_one_thread(Arc::clone(&core));
+
+        for _ in 0..lost_threads {
+            self.schedule_one_thread(Arc::clone(&core));
+        }
+
+        scheduled
+    }
+
+    ///
+    /// Wakes a dormant thread (or spawns a new one if there's room) so that it looks at the schedule
+    ///
+    fn schedule_one_thread(&self, core: Arc<SchedulerCore>) -> bool {
         // Find a dormant thread and activate it
         let schedule = self.schedule.clone();
 
@@ -48,7 +65,7 @@ impl SchedulerCore {
             // Try to create a new thread
             if self.spawn_thread_if_less_than_maximum() {
                 // Try harder to schedule this task if a thread was created
-                self.schedule_thread(core)
+                self.schedule_one_thread(core)
             } else {
                 // Couldn't schedule on an existing thread or create a new one
                 false
@@ -190,7 +207,7 @@ impl SchedulerCore {
     ///
     /// If any of the scheduler threads have finished (which generally means they panicked), despawn them
     ///
-    pub (super) fn remove_finished_threads(&self) {
+    pub (super) fn remove_finished_threads(&self) -> usize {
         let mut dead_threads = vec![];
 
         // Collate the dead threads into a vec
@@ -214,6 +231,8 @@ impl SchedulerCore {
             }
         }
 
+        let num_dead = dead_threads.len();
+
         // Despawn the dead threads (which might panic a bit)
         for (is_busy, dead_thread) in dead_threads {
             // Join with the thread in case it's mid-panic
@@ -229,6 +248,8 @@ impl SchedulerCore {
                 // Panics are relayed via the desync that failed
             }
         }
+
+        num_dead
     }
 
     ///
